@@ -204,7 +204,10 @@ where
                 pos: Self::DATA_OFFSET,
             });
         }
-        for (i, x) in unsafe { this.data().get_unchecked(..this.len()) }.iter().enumerate() {
+        // Zero-sized items all occupy the same (empty) place: checking one of them checks them all,
+        // and the announced length is not backed by any bytes.
+        let count = if T::SIZE == 0 { this.len().min(1) } else { this.len() };
+        for (i, x) in unsafe { this.data().get_unchecked(..count) }.iter().enumerate() {
             unsafe { T::validate_ptr(x.as_ptr()) }.map_err(|e| e.offset(Self::DATA_OFFSET + i * T::SIZE))?;
         }
         Ok(())
